@@ -65,53 +65,59 @@ def goIndex {α} (xs : List α) (i : Int) : Option α :=
   if (if i < 0 then (xs.length : Int) + i else i) < 0 ∨ (if i < 0 then (xs.length : Int) + i else i) ≥ xs.length
   then none else xs[(if i < 0 then (xs.length : Int) + i else i).toNat]?
 
-/-- what a failing segment does: error unless optional, in which case the walk goes on with "no value" -/
-def resolve : List Seg → Option Node → Except Err (Option Node)
+/-- what a failing segment does: error unless optional, in which case the walk goes on with "no value".
+`lenient` is the one point the property (C12) leaves open and the code decides: an OPTIONAL SLICE segment applied to a value
+that cannot be sliced. The code as it stands answers with an error (`lenient = false`, what `select` uses); answering with
+"no value", as for an optional field or index, is equally within C12 (`lenient = true`). Every C12 theorem holds for both. -/
+def resolve (lenient : Bool) : List Seg → Option Node → Except Err (Option Node)
   | [], cur => .ok cur
   | seg :: rest, cur =>
-    if seg.identity then resolve rest cur
+    if seg.identity then resolve lenient rest cur
     else if seg.iterator then
       match cur with
       | none | some .null =>
-        if seg.optional then resolve rest (some (.list [])) else .error .resolution
-      | some (.list _) => resolve rest cur
-      | some (.map kvs) => resolve rest (some (.list (Node.values kvs)))
+        if seg.optional then resolve lenient rest (some (.list [])) else .error .resolution
+      | some (.list _) => resolve lenient rest cur
+      | some (.map kvs) => resolve lenient rest (some (.list (Node.values kvs)))
       | _ => .error .resolution
     else if seg.isField then
       match cur with
       | some (.map kvs) =>
         match Node.lookup seg.field kvs with
-        | some n => resolve rest (some n)
-        | none => if seg.optional then resolve rest none else .error .resolution
-      | _ => if seg.optional then resolve rest none else .error .resolution
+        | some n => resolve lenient rest (some n)
+        | none => if seg.optional then resolve lenient rest none else .error .resolution
+      | _ => if seg.optional then resolve lenient rest none else .error .resolution
     else match seg.slice with
       | some (s0, s1) =>
         match cur with
-        | none => if seg.optional then resolve rest none else .error .resolution
+        | none => if seg.optional then resolve lenient rest none else .error .resolution
         | some (.list xs) =>
           let (a, b) := sliceIndices s0 s1 xs.length
-          resolve rest (some (.list (extract xs a b)))
+          resolve lenient rest (some (.list (extract xs a b)))
         | some (.bytes bs) =>
           let (a, b) := sliceIndices s0 s1 bs.length
-          resolve rest (some (.bytes (extract bs a b)))
+          resolve lenient rest (some (.bytes (extract bs a b)))
         | some (.str s) =>
           let runes := Utf8.decode s
           let (a, b) := sliceIndices s0 s1 runes.length
-          resolve rest (some (.str (Utf8.encode (extract runes a b))))
-        | _ => .error .resolution
+          resolve lenient rest (some (.str (Utf8.encode (extract runes a b))))
+        | _ => if lenient && seg.optional then resolve lenient rest none else .error .resolution
       | none => -- default: Index()
         match cur with
         | some (.list xs) =>
           match goIndex xs seg.index with
-          | some n => resolve rest (some n)
-          | none => if seg.optional then resolve rest none else .error .resolution
+          | some n => resolve lenient rest (some n)
+          | none => if seg.optional then resolve lenient rest none else .error .resolution
         | some (.bytes bs) =>
           match goIndex bs seg.index with
-          | some b => resolve rest (some (.int b.toNat))
-          | none => if seg.optional then resolve rest none else .error .resolution
-        | _ => if seg.optional then resolve rest none else .error .resolution
+          | some b => resolve lenient rest (some (.int b.toNat))
+          | none => if seg.optional then resolve lenient rest none else .error .resolution
+        | _ => if seg.optional then resolve lenient rest none else .error .resolution
 
 /-- `Selector.Select(subject)` -/
-def select (sel : List Seg) (subject : Node) : Except Err (Option Node) := resolve sel (some subject)
+def select (sel : List Seg) (subject : Node) : Except Err (Option Node) := resolve false sel (some subject)
+
+/-- `Select` under either reading of a failing optional slice -/
+def selectL (lenient : Bool) (sel : List Seg) (subject : Node) : Except Err (Option Node) := resolve lenient sel (some subject)
 
 end Ucan.Selector
